@@ -122,6 +122,13 @@ fn npz_file_name(name: &str) -> io::Result<String> {
     Ok(format!("{base}.npy"))
 }
 
+/// Verification hook (only compiled with `--cfg rten_verif`).
+#[cfg(rten_verif)]
+#[doc(hidden)]
+pub fn verif_npz_file_name(name: &str) -> io::Result<String> {
+    npz_file_name(name)
+}
+
 #[cfg(test)]
 mod tests {
     use super::*;
